@@ -20,8 +20,8 @@ import time
 
 VERIF = os.path.dirname(os.path.dirname(os.path.abspath(__file__)))
 REPO = os.environ.get('FE_REPO', '/repo')
-LEAN = os.path.join(VERIF, 'lean')
-BUILD = os.path.join(VERIF, 'build')
+LEAN = os.environ.get('FE_LEAN', os.path.join(VERIF, 'lean'))
+BUILD = os.environ.get('FE_BUILD', os.path.join(VERIF, 'build'))
 REPLAYS = os.path.join(VERIF, 'replays')
 EVIDENCE = os.path.join(VERIF, 'evidence')
 ALLOWED_AXIOMS = {'propext', 'Classical.choice', 'Quot.sound'}
